@@ -79,6 +79,16 @@ def spec_dense(sites, spec, lat):
                 H += t
                 if plus_hc:
                     H += t.conj().T
+        elif item[0] == 'local':
+            # one term given by lattice sites, repeated in every unit cell of `Luc` sites (only copies inside the chain count)
+            _, strength, term, plus_hc, Luc = item
+            for k in range(-L, L + 1):
+                tk = [(op, x + k * Luc) for op, x in term]
+                if all(0 <= x < L for _, x in tk):
+                    t = strength * mpsgen.op_dense(sites, tk)
+                    H += t
+                    if plus_hc:
+                        H += t.conj().T
         elif item[0] == 'expdecay':
             _, strength, lam, op1, op2, plus_hc = item
             for i in range(L):
@@ -105,6 +115,9 @@ def build_model(lat, spec, explicit_plus_hc):
                 elif item[0] == 'multi':
                     _, strength, ops, plus_hc = item
                     self.add_multi_coupling(strength, [(name, [dx], 0) for name, dx in ops], plus_hc=plus_hc)
+                elif item[0] == 'local':
+                    _, strength, term, plus_hc, Luc = item
+                    self.add_local_term(strength, [(op, [x, 0]) for op, x in term], plus_hc=plus_hc)
                 elif item[0] == 'expdecay':
                     _, strength, lam, op1, op2, plus_hc = item
                     self.add_exponentially_decaying_coupling(strength, lam, op1, op2, plus_hc=plus_hc)
@@ -177,6 +190,10 @@ def segment_checks(rec, rng, quick):
                     (it[0], it[1], it[2], it[3], int(np.sign(it[4])) * min(abs(it[4]), 2), it[5]) for it in spec]
             if not spec:
                 continue
+            # some couplings as single local terms (add_local_term), possibly reaching over the boundary of the unit cell
+            spec = [('local', it[1], [(it[2], a_), (it[3], a_ + max(1, abs(it[4])))], it[5], Luc)
+                    if it[0] == 'coupling' and rng.random() < 0.5 else it
+                    for it in spec for a_ in [int(rng.integers(0, Luc))]]
             for epc in (False, True):
                 inp = {'sites': fname, 'unit_cell': Luc, 'segment_sites': n, 'explicit_plus_hc': epc,
                        'spec': [tuple(x.tolist() if isinstance(x, np.ndarray) else x for x in item) for item in spec]}
